@@ -775,6 +775,97 @@ def second_scenario(ctx):
     return {'form': form}
 
 
+def alloc_scenario(ctx):
+    """longer histories over ONE resource (buffers or control buses, at most 4 objects, 9 operations: new / free of a
+    live object): a creation command never carries an id a live object owns, a free command carries the freed id once"""
+    m = N()
+    srv, main, buf, bus = m['srv'], m['main'], m['buf'], m['bus']
+    kind = ctx.choose('kind', 2)
+    sel = {'kind': kind}
+    rec = {'mode': 'nrt', 'kind': 'alloc', 'sel': sel}
+    if hasattr(main, 'reset'):
+        main.reset()
+    server = srv.Server.default
+    server._new_allocators()
+    hist = []
+    live = []       # [obj, id]
+    made = 0
+
+    def bad(what):
+        raise Violation(f'{["Buffer", "ControlBus"][kind]} history {hist}: {what}', None,
+                        {'key': 'c17:alloc', 'replay': dict(rec, sel=dict(sel))})
+    shape = ctx.choose('shape', 2)
+    sel['shape'] = shape
+    n_first = 3 + ctx.choose('first', 2) if shape == 1 else 0
+    sel['first'] = n_first - 3 if shape == 1 else 0
+    phase = {'freeing': True, 'freed': 0}
+    with Recorder(main) as R:
+        for i in range(12):
+            if shape == 0:
+                # free-form: at most 4 objects, 9 operations
+                if i >= 9:
+                    break
+                opts = (['new'] if made < 4 else []) + [('free', k) for k in range(len(live))]
+            else:
+                # a block of 3..4 objects, some of them freed in any order, then as many new ones
+                if made < n_first:
+                    opts = ['new']
+                elif phase['freeing']:
+                    opts = [('free', k) for k in range(len(live))] + (['stop'] if phase['freed'] else [])
+                else:
+                    opts = ['new'] if made < n_first + phase['freed'] else []
+            if not opts:
+                break
+            ci = ctx.choose(f'a{i}', len(opts)) if len(opts) > 1 else 0
+            sel[f'a{i}'] = ci
+            op = opts[ci]
+            if op == 'stop' or (shape == 1 and phase['freeing'] and made >= n_first and not live):
+                phase['freeing'] = False
+                if op == 'stop':
+                    continue
+            if shape == 1 and op != 'new':
+                phase['freed'] += 1
+            n0 = len(R.commands())
+            if op == 'new':
+                made += 1
+                try:
+                    o = buf.Buffer(8, 1, server) if kind == 0 else bus.ControlBus(1, server)
+                except (PathAbort, Inconclusive, Violation):
+                    raise
+                except Exception as e:
+                    hist.append(('new', '?'))
+                    bad(f'creation refused with {len(live)} live objects: {type(e).__name__}: {e}')
+                ident = o.bufnum if kind == 0 else o.index
+                hist.append(('new', ident))
+                if ident in [x[1] for x in live]:
+                    bad(f'the new object got id {ident}, which a live object still owns')
+                cmds = R.commands()[n0:]
+                if kind == 0 and [c[:2] for c in cmds] != [['/b_alloc', ident]]:
+                    bad(f'creation emitted {cmds}')
+                live.append([o, ident])
+            else:
+                o, ident = live.pop(op[1])
+                hist.append(('free', ident))
+                o.free()
+                cmds = R.commands()[n0:]
+                if kind == 0 and [c[:2] for c in cmds] != [['/b_free', ident]]:
+                    bad(f'free emitted {cmds} for buffer {ident}')
+    if hasattr(main, 'reset'):
+        main.reset()
+    ctx.obligations += 1
+    ctx.discharged += 1
+    ctx.note('alloc')
+    return {'hist': hist}
+
+
+def job_alloc(j):
+    st = explore(alloc_scenario, max_paths=200000, timeout_ms=5000, stop_on_violation=True)
+    d = st.as_dict()
+    for v in d['violations']:
+        v['data']['replay']['what'] = v['what']
+    return d
+
+
 def job_second(j):
     st = explore(second_scenario, max_paths=1000, timeout_ms=5000, stop_on_violation=True)
     d = st.as_dict()
@@ -836,6 +927,12 @@ def replay(rec):
         except Violation as v:
             return v.what
         return None
+    if rec.get('kind') == 'alloc':
+        try:
+            alloc_scenario(_CCtx(dict(rec['sel'])))
+        except Violation as v:
+            return v.what
+        return None
     if rec.get('kind') == 'second':
         try:
             second_scenario(_CCtx(dict(rec['sel'])))
@@ -885,6 +982,9 @@ def main(tier, seed):
     for r in run_jobs('vf.props.c17', 'job_spelling', [dict()], 'nrt'):
         chk.add('spelling', r)
     chk.require_notes('spelling', ['spelling'])
+    for r in run_jobs('vf.props.c17', 'job_alloc', [dict()], 'nrt'):
+        chk.add('allocation_histories', r)
+    chk.require_notes('allocation_histories', ['alloc'])
     for r in run_jobs('vf.props.c17', 'job_second', [dict()], 'nrt'):
         chk.add('second_server', r)
     chk.require_notes('second_server', ['second'])
